@@ -14,7 +14,7 @@ from vfacts import strip, walk, method_name, known_facts, conjuncts, is_node
 from .prov import var_table, local_sources
 
 RULE = 'TEXT'
-FLOOR = 25
+FLOOR = 20
 ANCHORS = ['parse_timbuk', 'TimbukSerializer::Serialize', 'SymbolicVarAsgn::ToString']
 STD_EXC = ('std::runtime_error', 'std::logic_error', 'std::invalid_argument', 'std::out_of_range', 'std::exception',
            'std::domain_error', 'std::length_error', 'std::range_error', 'std::bad_alloc', 'std::overflow_error')
